@@ -13,7 +13,7 @@ import (
 	vk "github.com/dtn7/dtn7-go/pkg/verifkit"
 )
 
-const tnRule = "two real nodes (Core, store, agent manager, CLA manager each) joined by a real TCPCLv4 session over loopback through a forwarder of the harness; histories of 3..12 events over {link up, link down (client unregistered), arm a cut of the connection after 0..66000 more bytes in one direction (orderly or reset; the dialed client comes back through the manager), application of A / of B submits a bundle of 3 B..1.1 MB for an application endpoint of the other node with every combination of delivery/reception report requests and report time, retry tick at A / at B, orderly restart of A / of B}, per routing algorithm; final phase: fault-free link and retry ticks"
+const tnRule = "two real nodes (Core, store, agent manager, CLA manager each) joined by a real TCPCLv4 session over loopback through a forwarder of the harness; histories of 3..12 events over {link up, link down (client unregistered), arm a cut of the connection after 0..66000 more bytes in one direction (orderly or reset; the dialed client comes back through the manager), application of A / of B submits a bundle of 3 B..1.1 MB for an application endpoint of the other node with every combination of delivery/reception report requests, report time, a hop-count block and a zero creation time with a bundle-age block, retry tick at A / at B, orderly restart of A / of B}, per routing algorithm; final phase: fault-free link and retry ticks"
 
 // C05 end to end: what an application handed to its node reaches the application on the other node, whatever
 // happened to the connection in between; until then it is pending in a store.
@@ -268,6 +268,74 @@ func TestVerifC11TwoNodes(t *testing.T) {
 			if id, n, h := judge(); id != "" {
 				w.logf("%s", w.dump())
 				w.failf("c11.success-without-delivery", "the TCPCLv4 client of the sending node reported %d successful transmissions of bundle %s, but the client of the receiving node handed it up %d times: a transfer was acknowledged and then dropped", n, id, h)
+			}
+		}
+	})
+}
+
+// C06 end to end: what arrives on the other node is the submitted bundle after exactly one hop.
+func TestVerifC06TwoNodes(t *testing.T) {
+	u := vk.Unit{Property: "C06", Name: "c06.two-nodes", Quick: 64, Thorough: 1000,
+		Rule: tnRule + ". Oracle, for every copy the other node's application receives: primary block and payload as submitted; the previous-node block names the submitting node; a hop-count block still has its limit and counts exactly one hop, however often the transmission was retried; a bundle-age block has grown by at least the time the bundle had to wait for the link and by no more than the time since its submission. Non-trivial = a copy with a hop-count or bundle-age block arrived; distinct by case hash"}
+	g := genTnCase()
+	vk.Check(t, u, func(t *rapid.T) tnCase { return g.Draw(t, "case") }, func(c *vk.Ctx, cs tnCase) {
+		w := tnRun(c, &cs)
+		defer w.close()
+		all := func(o tnObservation) bool {
+			for i := range w.subs {
+				if o.Delivered[i] == 0 {
+					return false
+				}
+			}
+			return true
+		}
+		o := w.settle(all)
+		end := time.Now()
+		w.classify(o)
+		for i, s := range w.subs {
+			me := []string{tnNameA, tnNameB}[s.From]
+			for _, b := range o.Copies[i] {
+				b := b
+				if s.Flags&48 != 0 {
+					c.NonTrivial()
+				}
+				p, q := b.PrimaryBlock, s.Bundle.PrimaryBlock
+				if !bytes.Equal(vfPayloadOf(&b), s.Payload) || p.SourceNode != q.SourceNode || p.Destination != q.Destination || p.ReportTo != q.ReportTo || p.CreationTimestamp != q.CreationTimestamp || p.Lifetime != q.Lifetime || p.BundleControlFlags != q.BundleControlFlags || p.CRCType != q.CRCType {
+					w.failf("c06.primary-or-payload-changed", "bundle %d arrived with another primary block or payload: %v instead of %v (payload %d / %d bytes)", i, p, q, len(vfPayloadOf(&b)), len(s.Payload))
+				}
+				if pn, err := b.ExtensionBlock(bpv7.ExtBlockTypePreviousNodeBlock); err != nil {
+					w.failf("c06.previous-node", "bundle %d arrived without a previous-node block", i)
+				} else if got := pn.Value.(*bpv7.PreviousNodeBlock).Endpoint().String(); got != me {
+					w.failf("c06.previous-node", "bundle %d arrived with previous node %s, it was forwarded by %s", i, got, me)
+				}
+				hc, err := b.ExtensionBlock(bpv7.ExtBlockTypeHopCountBlock)
+				if s.Flags&16 != 0 {
+					if err != nil {
+						w.failf("c06.block-lost", "bundle %d was submitted with a hop-count block and arrived without", i)
+					}
+					h := hc.Value.(*bpv7.HopCountBlock)
+					if h.Limit != 5 || h.Count != 1 {
+						w.failf("c06.hop-count", "bundle %d was submitted with hop count 0 of 5 and arrived after one hop with %d of %d (%d transmissions failed before)", i, h.Count, h.Limit, w.lg.get(w.lg.failed, s.Bundle.ID().String()))
+					}
+				} else if err == nil {
+					w.failf("c06.block-added", "bundle %d was submitted without a hop-count block and arrived with one", i)
+				}
+				ab, err := b.ExtensionBlock(bpv7.ExtBlockTypeBundleAgeBlock)
+				if s.Flags&32 != 0 {
+					if err != nil {
+						w.failf("c06.block-lost", "bundle %d was submitted with a bundle-age block and arrived without", i)
+					}
+					age := time.Duration(ab.Value.(*bpv7.BundleAgeBlock).Age()) * time.Millisecond
+					var waited time.Duration
+					if s.LinkDown && !s.UpAt.IsZero() {
+						waited = s.UpAt.Sub(s.At)
+					}
+					if age+5*time.Millisecond < waited || age > end.Sub(s.At)+5*time.Millisecond {
+						w.failf("c06.age", "bundle %d (zero creation time) arrived with age %v; it waited at least %v for the link and was submitted %v ago", i, age, waited, end.Sub(s.At))
+					}
+				} else if err == nil {
+					w.failf("c06.block-added", "bundle %d was submitted without a bundle-age block and arrived with one", i)
+				}
 			}
 		}
 	})
